@@ -387,3 +387,410 @@ def r4_5_siblings(ctx, prog, rule="R4.5"):
             seen.add(key)
             ctx.ob(rule, key, ok, "%s -> %s" % (var, show(_ret(pa))[:120]), info["where"], replay=None if ok else pa.describe())
     ctx.floor(rule, "agent validate_message_integrity classes", len(seen), 5)
+
+
+# ------------------------------------------------------------------------------------------------ C11
+
+TM = "stun_agent::timeout::StunMessageTimeout"
+
+
+def _item_field(prog, name):
+    adt = prog.adt("stun_agent::timeout::TimeoutItem")
+    names = [f["name"] for f in adt["variants"][0]["fields"]]
+    if name not in names:
+        raise C.AnchorMissing("TimeoutItem.%s" % name)
+    return names.index(name)
+
+
+def r11_2_payload(ctx, prog, rule="R11.2"):
+    ctx.rule(rule, "StunMessageTimeout::next_timeout: None iff the heap is empty; otherwise the id is the peeked minimum's id "
+                   "and the duration is (item.instant + item.timeout) - instant on the partition where that sum > instant, "
+                   "zero otherwise")
+    fi, ft, fid = (_item_field(prog, n) for n in ("instant", "timeout", "transaction_id"))
+    paths, info = _paths(ctx, prog, TM + "::next_timeout", "t")
+    peek = ("BinaryHeap::peek", "top:t.timeouts")
+    item = lambda k: (peek, ".0.*.0.%d" % k)
+    expires = ("Instant::add", item(fi), item(ft))
+    n = 0
+    for pa in paths:
+        pk = pa.choice(r"^variant\(ret:peek@")
+        gt = pa.choice(r"^ret:gt@")
+        r = _ret(pa)
+        n += 1
+        if pk == "None":
+            ok = r == "Option::None"
+            key = "empty"
+        else:
+            g = pa.calls_to(r"Instant as std::cmp::PartialOrd>::gt$")
+            okg = len(g) == 1 and same(C.expr_of(pa, g[0][2]), (expires, "top:instant"))
+            if gt == 1:
+                exp = ("Option::Some", ("tuple", item(fid), ("Instant::sub", expires, "top:instant")))
+            else:
+                exp = ("Option::Some", ("tuple", item(fid), ("Duration::from_secs", 0)))
+            ok = okg and same(r, exp)
+            key = "pending:later=%s" % gt
+        ctx.ob(rule, key, ok, "-> %s" % show(r)[:260], info["where"], replay=None if ok else pa.describe())
+    ctx.floor(rule, "next_timeout paths", n, 3)
+
+
+def r11_3_order(ctx, prog, rule="R11.3"):
+    ctx.rule(rule, "heap order: TimeoutItem::cmp compares self.instant+self.timeout (receiver) with other's (argument) in that "
+                   "order; partial_cmp delegates to cmp; the heap element type is Reverse<TimeoutItem> (min-heap by expiry)")
+    paths, info = _paths(ctx, prog, "<stun_agent::timeout::TimeoutItem as std::cmp::Ord>::cmp", "a")
+    exp = ("Instant::cmp", ("Instant::add", "top:a.instant", "top:a.timeout"), ("Instant::add", "top:other.instant", "top:other.timeout"))
+    for pa in paths:
+        r = _ret(pa)
+        # Instant::add is commutative in its two operands only within one item: compare without normalising cmp's order
+        ok = isinstance(r, tuple) and r[0] == "Instant::cmp" and same(r[1], exp[1]) and same(r[2], exp[2])
+        ctx.ob(rule, "cmp", ok, "cmp = %s" % show(r), info["where"], replay=pa.describe())
+    ctx.floor(rule, "cmp paths", len(paths), 1)
+    paths, info = _paths(ctx, prog, "<stun_agent::timeout::TimeoutItem as std::cmp::PartialOrd>::partial_cmp", "a")
+    for pa in paths:
+        r = _ret(pa)
+        ok = isinstance(r, tuple) and r[0] == "Option::Some" and isinstance(r[1], tuple) and r[1][0].endswith("cmp") \
+            and "top:a" in repr(r[1][1]) and "top:other" in repr(r[1][2])
+        ctx.ob(rule, "partial_cmp", ok, "partial_cmp = %s" % show(r), info["where"])
+    adt = prog.adt(TM)
+    f = [x for x in adt["variants"][0]["fields"] if x["name"] == "timeouts"]
+    tys = adt["types"][f[0]["ty"]]["s"] if f else None
+    ctx.ob(rule, "heap-type", tys == "std::collections::BinaryHeap<std::cmp::Reverse<stun_agent::timeout::TimeoutItem>>",
+           "StunMessageTimeout.timeouts : %s" % tys)
+
+
+def r11_4_pairing(ctx, prog, rule="R11.4"):
+    ctx.rule(rule, "pairing: add pushes Reverse(TimeoutItem{instant, timeout, id}) from its arguments; check pops exactly the "
+                   "entries whose instant+timeout <= now and returns their ids, stopping at the first later one; remove "
+                   "retains the entries whose id differs from the argument")
+    paths, info = _paths(ctx, prog, TM + "::add", "t")
+    for pa in paths:
+        ps = pa.calls_to(r"BinaryHeap::<.*>::push$")
+        exp = ("Reverse", ("TimeoutItem", "top:instant", "top:timeout", "top:transaction_id"))
+        ok = len(ps) == 1 and ps[0][3] == ("t", "timeouts") and same(C.expr_of(pa, ps[0][2][1]), exp)
+        ctx.ob(rule, "add", ok, "add pushes %s" % (show(C.expr_of(pa, ps[0][2][1])) if ps else None), info["where"])
+    fi, ft, fid = (_item_field(prog, n) for n in ("instant", "timeout", "transaction_id"))
+    paths, info = _paths(ctx, prog, TM + "::check", "t")
+    body = info["body"]
+    seen = {}
+    for pa in paths:
+        segs = shared.segments(pa.log, body.path)
+        for seg in segs[1:]:
+            pk = shared.choice_in(seg, [e[1] for e in seg if e[0] == "choice" and str(e[1]).startswith("variant(ret:peek@")][0]) \
+                if [e for e in seg if e[0] == "choice" and str(e[1]).startswith("variant(ret:peek@")] else None
+            le = [e[2] for e in seg if e[0] == "choice" and str(e[1]).startswith("ret:le@")]
+            le = le[0] if le else None
+            pushes = [e for e in seg if e[0] == "call" and re.search(r"Vec::<.*>::push$", e[1])]
+            pops = [e for e in seg if e[0] == "call" and re.search(r"BinaryHeap::<.*>::pop$", e[1])]
+            key = "iteration:peek=%s,due=%s" % (pk, le)
+            if pk == "Some" and le == 1:
+                ok = len(pushes) == 1 and len(pops) == 1 and pops[0][3] == ("t", "timeouts")
+                if ok:
+                    a = C.expr_of(pa, pushes[0][2][1])
+                    ok = isinstance(a, tuple) and a[1].endswith(".%d" % fid) and "peek" in repr(a[0])
+                lc = [e for e in seg if e[0] == "call" and re.search(r"PartialOrd>::le$", e[1])]
+                if ok:
+                    t = C.expr_of(pa, lc[0][2])
+                    ok = isinstance(t[0], tuple) and t[0][0] == "Instant::add" and t[1] == "top:instant" \
+                        and {t[0][1][1][-2:], t[0][2][1][-2:]} == {".%d" % fi, ".%d" % ft}
+                why = "due entry: %d push, %d pop" % (len(pushes), len(pops))
+            else:
+                ok = not pushes and not pops
+                why = "no due entry: %d push, %d pop" % (len(pushes), len(pops))
+            if key not in seen or not ok:
+                seen[key] = (ok, why)
+        # the function returns the vector it filled
+        if isinstance(pa.ret, str):
+            okr = pa.ret.startswith("top:havoc:push") or pa.ret.startswith("top:ret:new@")
+            ctx.ob(rule, "check-returns-expired", okr, "check returns %s" % pa.ret[:60], info["where"])
+    for key, (ok, why) in sorted(seen.items()):
+        ctx.ob(rule, "check:%s" % key, ok, why, info["where"])
+    ctx.floor(rule, "check iteration classes", len(seen), 3)
+    paths, info = _paths(ctx, prog, TM + "::remove", "t", [])
+    for pa in paths:
+        rt = pa.calls_to(r"BinaryHeap::<.*>::retain::<")
+        ok = len(rt) == 1 and rt[0][3] == ("t", "timeouts") and "transaction_id" in repr(rt[0][2][1])
+        ctx.ob(rule, "remove", ok, "remove = timeouts.retain(closure[%s])" % (repr(rt[0][2][1])[:80] if rt else None), info["where"])
+    cl = [b for b in prog.bodies.values() if b.path.startswith(TM + "::remove::{closure")]
+    if len(cl) != 1:
+        ctx.anchor_missing(rule, "closure of StunMessageTimeout::remove")
+    else:
+        paths, info = C.explore_fn(prog, cl[0].path, "t", [])
+        for pa in paths:
+            r = _ret(pa)
+            ok = isinstance(r, tuple) and r[0].endswith("ne") and r[1].endswith(".0.%d" % fid) and "item" in r[1] and "arg1" in repr(r[2]) is not None
+            ok = ok or (isinstance(r, tuple) and r[0].endswith("ne") and ("item" in repr(r[1])) and str(fid) in repr(r[1]))
+            ctx.ob(rule, "remove-closure", ok, "retain predicate = %s" % show(r), cl[0].where())
+
+
+# ------------------------------------------------------------------------------------------------ C13
+
+SA = "stun_agent::message::StunAttributes"
+
+
+def r13_1_tail_order(ctx, prog, rule="R13.1"):
+    ctx.rule(rule, "From<StunAttributes> for Vec<StunAttribute>: after the base vector the pushes are integrity, "
+                   "integrity_sha256, fingerprint in that order, each iff present, and the base vector is returned")
+    cands = [b for b in prog.bodies.values() if re.search(r"From<stun_agent::message::StunAttributes> for std::vec::Vec<.*StunAttribute>>::from$", b.path)]
+    cands = [b for b in cands if b.kind != "Closure"]
+    if len(cands) != 1:
+        ctx.anchor_missing(rule, "From<StunAttributes> for Vec<StunAttribute> (%d)" % len(cands))
+        return
+    paths, info = _paths(ctx, prog, cands[0].path, "val")
+    n = 0
+    for pa in paths:
+        pres = {}
+        for f in ("integrity", "integrity_sha256", "fingerprint"):
+            pres[f] = pa.choice(r"^variant\(val\.%s\)$" % f)
+        pushes = pa.calls_to(r"Vec::<.*>::push$")
+        order = []
+        for e in pushes:
+            src = repr(e[2][1])
+            m = re.search(r"val\.(integrity_sha256|integrity|fingerprint)", src)
+            order.append(m.group(1) if m else src[:40])
+            if "val.attributes" not in repr(e[2][0]) and "havoc:push" not in repr(e[2][0]):
+                order.append("WRONG-VEC:%s" % repr(e[2][0])[:40])
+        want = [f for f in ("integrity", "integrity_sha256", "fingerprint") if pres[f] == "Some"]
+        r = pa.ret
+        okr = isinstance(r, str) and ("val.attributes" in r or "havoc:push" in r)
+        n += 1
+        ctx.ob(rule, "tail:%s" % ",".join("%s=%s" % (k[:3], v) for k, v in pres.items()), order == want and okr,
+               "pushes %s (expected %s), returns %s" % (order, want, r if isinstance(r, str) else "?"), info["where"],
+               replay=pa.describe())
+    ctx.floor(rule, "presence combinations", n, 8)
+
+
+def r13_2_replace(ctx, prog, rule="R13.2"):
+    ctx.rule(rule, "StunAttributes::add: MESSAGE-INTEGRITY / -SHA256 / FINGERPRINT go to their dedicated slot (overwrite); any "
+                   "other type overwrites the existing attribute of the same type at its position or, if none, is pushed; "
+                   "remove takes the dedicated slot or removes the first attribute of the type")
+    body = prog.body(SA + "::add")
+    paths, info = C.explore_fn(prog, body.path, "sa", [r"\{closure", r"stun_rs::attributes::StunAttribute::(is_\w+)$"])
+    ctx.fn(body)
+    slot = {"MessageIntegrity": "integrity", "MessageIntegritySha256": "integrity_sha256", "Fingerprint": "fingerprint"}
+    seen = {}
+    for pa in paths:
+        var = None
+        for nme, v in pa.choices:
+            if str(nme).startswith("variant(ret:into@"):
+                var = v
+        pos = pa.choice(r"^variant\(ret:position@")
+        w = [(x[2], x[3]) for x in pa.writes if x[0] == "write" and x[1] == "sa"]
+        we = [x for x in pa.writes if x[0] == "write-elem"]
+        pushes = pa.calls_to(r"Vec::<.*>::push$")
+        idx = pa.calls_to(r"IndexMut<usize>>::index_mut$|index_mut$")
+        if var in slot:
+            ok = len(w) == 1 and w[0][0] == (slot[var],) and isinstance(w[0][1], tuple) and w[0][1][0] == "Option::Some" and not pushes and not idx
+            key = "add:%s" % var
+            why = "writes %s, %d push" % ([x[0] for x in w], len(pushes))
+        else:
+            key = "add:other:position=%s" % pos
+            if pos == "Some":
+                ok = not w and not pushes and (len(idx) == 1 or len(we) == 1)
+                if ok and idx:
+                    ok = "position" in repr(C.expr_of(pa, idx[0][2][1])) and "sa.attributes" in repr(idx[0][2][0])
+                why = "existing type: %d indexed overwrite, %d push" % (len(idx) + len(we), len(pushes))
+            else:
+                ok = not w and len(pushes) == 1 and "sa.attributes" in repr(pushes[0][2][0]) and "into" in repr(pushes[0][2][1])
+                why = "new type: %d push" % len(pushes)
+            # the position predicate compares attribute types
+            pc = pa.calls_to(r"Iterator>::position::<")
+            ok = ok and len(pc) == 1
+        if key not in seen or not ok:
+            seen[key] = (ok, why, pa)
+    for key, (ok, why, pa) in sorted(seen.items()):
+        ctx.ob(rule, key, ok, why, info["where"], replay=None if ok else pa.describe())
+    ctx.floor(rule, "add cases", len(seen), 5)
+    cl = [b for b in prog.bodies.values() if b.path.startswith(SA + "::add::{closure")]
+    for b in cl:
+        paths, info = C.explore_fn(prog, b.path, "c", [])
+        for pa in paths:
+            r = _ret(pa)
+            ok = isinstance(r, tuple) and r[0].endswith("eq") and "attribute_type" in repr(r[1]) and "attribute_type" in repr(r[2])
+            ctx.ob(rule, "add-position-predicate", ok, "position predicate = %s" % show(r)[:160], b.where())
+    ctx.floor(rule, "add closures", len(cl), 1)
+
+
+def r13_45_build(ctx, prog, rule="R13.5"):
+    ctx.rule(rule, "fresh transaction id and decoration order: both send paths call create_stun_message with no id after the "
+                   "mechanism (first) and FINGERPRINT (second) decoration; create_stun_message adds the attributes in "
+                   "StunAttributes order; StunMessageBuilder::build draws a random id when none was given")
+    for fn, cls in (("send_request", "MessageClass::Request"), ("send_indication", "MessageClass::Indication")):
+        paths, info = C.explore(prog, fn)
+        n = 0
+        for pa in paths:
+            cs = pa.calls_to(r"message::create_stun_message$")
+            if not cs:
+                continue
+            n += 1
+            a = cs[0][2]
+            ok = a[0] == "top:method" and a[1] == cls and a[2] == "Option::None"
+            ctx.ob(rule, "%s:create" % fn, ok, "create_stun_message(%s, %s, %s, ..)" % (a[0], a[1], a[2]), info["where"])
+        ctx.floor(rule, "%s paths building a message" % fn, n, 2)
+    paths, info = _paths(ctx, prog, "stun_agent::message::create_stun_message", "x", [r"\{closure"])
+    n = 0
+    for pa in paths:
+        tid = pa.choice(r"^variant\(transaction_id\)$")
+        wt = pa.calls_to(r"StunMessageBuilder::with_transaction_id$")
+        conv = [c for c in pa.calls if re.search(r"Into<std::vec::Vec<.*StunAttribute>>>::into$|From<stun_agent::message::StunAttributes>>::from$", c[1])]
+        n += 1
+        ok = (len(wt) == 1) == (tid == "Some") and len(conv) >= 1 and "attributes" in repr(conv[0][2])
+        bd = pa.calls_to(r"StunMessageBuilder::build$")
+        ok = ok and len(bd) == 1
+        ctx.ob(rule, "create_stun_message:id=%s" % tid, ok, "with_transaction_id x%d, build x%d" % (len(wt), len(bd)), info["where"],
+               replay=None if ok else pa.describe())
+    ctx.floor(rule, "create_stun_message paths", n, 2)
+    b = prog.body("stun_rs::message::StunMessageBuilder::build")
+    paths, info = _paths(ctx, prog, b.path, "b", [r"\{closure"])
+    n = 0
+    for pa in paths:
+        n += 1
+        r = C.expr_of(pa, pa.ret)
+        ok = "TransactionId::default" in repr(r) or "unwrap_or_default" in repr(r) or "default" in repr([C.short(c[1]) for c in pa.calls]) \
+            or pa.choice(r"transaction_id") == "Some"
+        ctx.ob(rule, "build:%s" % ",".join(str(v) for _n, v in pa.choices), ok, "build -> %s" % show(r)[:200], b.where())
+    d = [x for x in prog.bodies.values() if x.path == "<stun_rs::types::TransactionId as std::default::Default>::default"]
+    if len(d) != 1:
+        ctx.anchor_missing(rule, "TransactionId::default")
+    else:
+        rnd = [c for c in d[0].calls() if re.search(r"^rand::|rand::Rng|rand::rng|fill", c.callee_path)]
+        ctx.ob(rule, "default-id-is-random", len(rnd) >= 1, "TransactionId::default calls %s" % sorted({C.short(c.callee_path) for c in d[0].calls()}), d[0].where())
+
+
+def r13_6_packet_immutable(ctx, prog, rule="R13.6"):
+    ctx.rule(rule, "identical retransmission: the stored packet is the one pushed as OutputPacket (send_request); on_timeout "
+                   "pushes a clone of transaction.packet (R5.3); StunPacket has no API taking &mut self and "
+                   "StunTransaction.packet is written only when the transaction is built")
+    paths, info = C.explore(prog, "send_request")
+    for pa in paths:
+        ins = pa.calls_to(r"HashMap::<.*>::insert$", R.T_TABLE)
+        outp = [p for p in pa.pushes() if p[1] == "StunClientEvent::OutputPacket"]
+        if ins and outp:
+            tr = ins[0][2][2]
+            ok = isinstance(tr, tuple) and tr[0] == "StunTransaction" and tr[2] == outp[0][2][1] and "encode_buffer" in repr(tr[2])
+            ctx.ob(rule, "stored==sent", ok, "stored packet %r, sent packet %r" % (tr[2] if isinstance(tr, tuple) else tr, outp[0][2][1]), info["where"])
+            break
+    else:
+        ctx.violation(rule, "stored==sent", "no Ok path with insert + OutputPacket found", info["where"])
+    muts = []
+    for b in prog.bodies.values():
+        if b.crate == "stun_agent" and b.raw.get("self_ty") is not None and b.types[b.raw["self_ty"]]["s"] == "stun_agent::StunPacket":
+            if b.arg_count >= 1:
+                t = b.local_ty(1)
+                if t.get("k") == "ref" and t.get("mut"):
+                    muts.append(b.path)
+    ctx.ob(rule, "packet-no-mut-api", not muts, "StunPacket methods taking &mut self: %s" % (muts or "none"))
+    n, bad = R.who_may_write(ctx, prog, rule, "packet", "stun_agent::client::StunTransaction", [])
+    ctx.ob(rule, "packet-field-writes", not bad, "writes/&mut to StunTransaction.packet after construction: %s" % (bad or "none"))
+    adt = prog.adt("stun_agent::StunPacket")
+    ftys = [adt["types"][f["ty"]]["s"] for f in adt["variants"][0]["fields"]]
+    ctx.ob(rule, "packet-shared-immutable", any(t.startswith("std::sync::Arc<") for t in ftys), "StunPacket fields: %s" % ftys)
+
+
+# ------------------------------------------------------------------------------------------------ C18
+
+DC = "stun_rs::context::DecoderContext"
+
+
+def r18_1_who_reads(ctx, prog, rule="R18.1"):
+    ctx.rule(rule, "who may read the decoder options: validation / unknown_data / not_ignore only through their accessors, the "
+                   "builder, derived impls and MessageDecoder::decode; validate() only in validate_attribute; "
+                   "with_unknown_data() only in decode; key() only in Verifiable::verify impls; no attribute decoder reads a flag")
+    readers = {}
+    for b in prog.bodies.values():
+        if b.crate != "stun_rs":
+            continue
+        for blk in b.blocks:
+            if blk["cleanup"]:
+                continue
+            places = []
+            for s in blk["stmts"]:
+                if s["k"] == "assign":
+                    places.append(s["place"])
+                    rv = s["rv"]
+                    if rv["k"] in ("ref", "rawptr", "discr"):
+                        places.append(rv["place"])
+                    for o in ([rv.get("op"), rv.get("a"), rv.get("b")] + list(rv.get("ops", []))):
+                        if isinstance(o, dict) and o["k"] in ("copy", "move"):
+                            places.append(o["place"])
+            t = blk["term"]
+            if t["k"] == "switch" and t["discr"]["k"] in ("copy", "move"):
+                places.append(t["discr"]["place"])
+            if t["k"] == "call":
+                for a in t["args"]:
+                    if a["k"] in ("copy", "move"):
+                        places.append(a["place"])
+            for pl in places:
+                for e in pl["p"]:
+                    if e["k"] == "field" and e.get("adt") == DC and e.get("name") in ("validation", "unknown_data", "not_ignore", "key"):
+                        readers.setdefault(e["name"], set()).add(b.path)
+    allowed_common = [r"^stun_rs::context::DecoderContextBuilder::", r"^<stun_rs::context::DecoderContext as std::(fmt::Debug|clone::Clone|cmp::PartialEq|default::Default)",
+                      r"^<stun_rs::context::DecoderContext as std::cmp::Eq"]
+    allowed = {
+        "validation": [r"^stun_rs::context::DecoderContext::validate$"],
+        "unknown_data": [r"^stun_rs::context::DecoderContext::with_unknown_data$"],
+        "not_ignore": [r"^stun_rs::context::MessageDecoder::decode$"],
+        "key": [r"^stun_rs::context::DecoderContext::key$"],
+    }
+    for f, fns in sorted(readers.items()):
+        bad = [x for x in fns if not any(re.search(a, x) for a in allowed[f] + allowed_common)]
+        ctx.ob(rule, "field:%s" % f, not bad, "DecoderContext.%s accessed in %d functions; outside the allowed set: %s" % (f, len(fns), bad or "none"))
+    ctx.floor(rule, "option fields found", len(readers), 4)
+    callers = {"validate": set(), "with_unknown_data": set(), "key": set()}
+    ctx_callers = set()
+    for b in prog.bodies.values():
+        if b.crate != "stun_rs":
+            continue
+        for c in b.calls():
+            m = re.search(r"^stun_rs::context::DecoderContext::(validate|with_unknown_data|key)$", c.callee_path)
+            if m:
+                callers[m.group(1)].add(b.path)
+            if re.search(r"AttributeDecoderContext::<'_>::context$|AttributeDecoderContext::context$", c.callee_path):
+                ctx_callers.add(b.path)
+    ctx.ob(rule, "callers:validate", callers["validate"] == {"stun_rs::context::validate_attribute"}, "validate() called in %s" % sorted(callers["validate"]))
+    ctx.ob(rule, "callers:with_unknown_data", callers["with_unknown_data"] == {"stun_rs::context::MessageDecoder::decode"},
+           "with_unknown_data() called in %s" % sorted(callers["with_unknown_data"]))
+    okk = bool(callers["key"]) and all(re.search(r" as stun_rs::attributes::Verifiable>::verify$", x) for x in callers["key"])
+    ctx.ob(rule, "callers:key", okk, "key() called in %s" % sorted(x.split(" as ")[0].split("::")[-1] for x in callers["key"]))
+    okc = all(re.search(r"password_algorithms::PasswordAlgorithms as stun_rs::attributes::DecodeAttributeValue>::decode$", x) for x in ctx_callers)
+    ctx.ob(rule, "callers:attribute-context", okc, "AttributeDecoderContext::context() called in %s" % sorted(ctx_callers))
+
+
+def r18_2_flows(ctx, prog, rule="R18.2"):
+    ctx.rule(rule, "option flows in the decode loop: unknown_data decides only the data argument of Unknown::new; not_ignore "
+                   "only the filter gate; validation only whether verify runs (its sole effect is an error); a decoder "
+                   "without context behaves like one with the default context")
+    res = shared.decode_paths(ctx, prog)
+    if res is None:
+        return
+    segs, info = res
+    n = 0
+    for s in segs:
+        if s["handler"] != "None" or not s["unknown_new"]:
+            continue
+        arg = s["unknown_new"][0][0] if s["unknown_new"][0] else None
+        kept = isinstance(arg, tuple) and arg[0] == "Option::Some"
+        want = (s["ctx"] == "Some" and s["unknown_data"] == 1)
+        n += 1
+        ok = kept == want
+        if ok and kept:
+            ok = "next@" in repr(arg)          # the raw attribute value of this iteration
+        ctx.ob(rule, "unknown-data:ctx=%s,flag=%s" % (s["ctx"], s["unknown_data"]), ok,
+               "Unknown::new data=%s" % (repr(arg)[:80],), info["where"], replay=None if ok else s)
+    ctx.floor(rule, "unknown-attribute iteration classes", n, 3)
+
+    def proj(s):
+        return (s["ignored"], s["validated"], s["validate_result"], s["appended"], s["handler"],
+                tuple(("Some" if isinstance(u[0], tuple) and u[0][0] == "Option::Some" else "None") for u in s["unknown_new"]), s["exit"], tuple(s["order"]))
+    none_set = {proj(s) for s in segs if s["ctx"] == "None"}
+    dflt_set = {proj(s) for s in segs if s["ctx"] == "Some" and s["unknown_data"] in (0, None) and s["not_ignore"] in (0, None)
+                and not (s["not_ignore"] is None and s["ignored"] == 1 and s["validated"])}
+    # a flag left undetermined on a path (None) means the path does not depend on it: it stands for both values
+    missing = none_set - dflt_set
+    extra = {p for p in dflt_set - none_set}
+    ctx.ob(rule, "no-context==default-context", not missing and not extra,
+           "%d iteration classes without context, %d with the default context; only-without=%s only-default=%s"
+           % (len(none_set), len(dflt_set), sorted(missing)[:2], sorted(extra)[:2]), info["where"])
+    # the validation flag is consulted only inside validate_attribute (R4.2) - the loop itself never branches on it
+    ctx.ob(rule, "validation-not-in-loop", all(s["validation"] is None for s in segs),
+           "decode loop paths that branch on the validation flag: %d" % len([s for s in segs if s["validation"] is not None]), info["where"])
+    # appended at most once per iteration, and iterations are in wire order by construction of the loop
+    ctx.ob(rule, "append-once", all(s["order"].count("with_attribute") <= 1 for s in segs), "with_attribute at most once per iteration", info["where"])
